@@ -544,6 +544,7 @@ func runC12(c *Ctx) {
 	c04Exhaustive(c, "C12")
 	c04Ownership(c, "C12-R6")
 	c04LostUpdates(c, "C12-R6")
+	c12PerNameInclusion(c, "C12-R6")
 	c12JoinOperands(c, "C12-R7")
 	c.Rule("C12-R8", "AlwaysReturns does not survive filtering set operators", 1)
 	c12AlwaysReturns(c, "C12-R8")
